@@ -118,6 +118,11 @@ class VOpaque(object):
         return "<opaque %s>" % self.what
 
 
+class Boxed(object):
+    def __init__(self, value):
+        self.value = value
+
+
 UNIT = VTuple((), "unit")
 
 VARIANT_INDEX = {
@@ -150,9 +155,11 @@ class State(object):
         self.B = T.Builder(split_mod=True)
         self.log = []
         self.steps = 0
+        self.holder = {}     # storage for by-reference arguments of the entry function (frame id -1)
 
     def clone(self):
         s = State()
+        s.holder = dict(self.holder)
         s.frames = [f.clone() for f in self.frames]
         s.pc = list(self.pc)
         s.B = self.B.clone()
@@ -166,6 +173,8 @@ class Leaf(object):
         self.kind = kind      # 'return' | 'panic' | 'ub'
         self.value = value
         self.pc = list(st.pc)
+        self.holder = dict(st.holder)
+        self.locals0 = dict(st.frames[0].locals) if st.frames else {}
         self.B = st.B.clone()
         self.B.split_mod = False
         self.log = list(st.log)
@@ -276,6 +285,14 @@ class Executor(object):
                     return v
         else:
             it = self.mir.items.get(name)
+            pm = re.match(r"^(.*)::promoted\[(\d+)\]$", name)
+            if it is None and pm:
+                owner = self.mir.items.get(strip_generics(pm.group(1))) or self.find_fn(pm.group(1))
+                if owner is None:
+                    cands = self.mir.find_suffix(strip_generics(pm.group(1)).split("::")[-1], "const")
+                    owner = cands[0] if len(cands) == 1 else None
+                if owner is not None:
+                    it = self.mir.items.get("%s::promoted[%s]" % (owner.name, pm.group(2)))
             if it is None:
                 cands = self.mir.find_suffix(name.split("::")[-1], "const")
                 tail = name.split("::")
@@ -293,8 +310,24 @@ class Executor(object):
             leaves = self.run(st)
             if len(leaves) != 1 or leaves[0].kind != "return":
                 raise Unsupported("constant body did not evaluate to one value: " + name)
-            v = leaves[0].value
+            v = self._freeze(leaves[0].value, leaves[0].locals0)
         self._const_cache[key] = v
+        return v
+
+    def _freeze(self, v, locals0):
+        """References into the (now dead) frame of a constant's body become references to constants."""
+        if isinstance(v, VRef):
+            if v.const is not None:
+                return VRef(None, None, v.path, const=self._freeze(v.const, locals0))
+            if v.frame == 0:
+                return VRef(None, None, v.path, const=self._freeze(locals0[v.local], locals0))
+            raise Unsupported("constant holds a reference that cannot be frozen")
+        if isinstance(v, VTuple):
+            return VTuple([self._freeze(x, locals0) for x in v.items], v.kind)
+        if isinstance(v, VArray):
+            return VArray([self._freeze(x, locals0) for x in v.items], v.name)
+        if isinstance(v, VVariant):
+            return VVariant(v.adt, v.variant, [self._freeze(x, locals0) for x in v.items])
         return v
 
     def literal(self, text, ty_hint=None):
@@ -341,8 +374,10 @@ class Executor(object):
         return self.const_item(text)
 
     # ---- running ---------------------------------------------------------------
-    def call(self, fname, args, pc=(), bounds=None):
-        """Symbolically execute function `fname` on argument values; return leaves."""
+    def call(self, fname, args, pc=(), bounds=None, log=()):
+        """Symbolically execute function `fname` on argument values; return leaves.
+        An argument wrapped in Boxed(v) is passed by reference (&T / &mut T); its final value is
+        available as leaf.holder[i]."""
         body = self.mir.items.get(fname) or self.find_fn(fname)
         if body is None:
             raise Unsupported("function not found: " + fname)
@@ -356,8 +391,12 @@ class Executor(object):
         st.frames.append(fr)
         if len(args) != len(body.params):
             raise Unsupported("arity mismatch calling " + fname)
-        for (n, _ty), v in zip(body.params, args):
+        for i, ((n, _ty), v) in enumerate(zip(body.params, args)):
+            if isinstance(v, Boxed):
+                st.holder[i] = v.value
+                v = VRef(-1, i, ())
             fr.locals[n] = v
+        st.log = list(log)
         return self.run(st)
 
     def run(self, st):
@@ -400,6 +439,7 @@ class Executor(object):
             raise Unsupported("step budget exceeded in " + fr.body.name)
         # statements: evaluate on a scratch copy of the locals so that a Fork leaves `st` untouched
         saved = [dict(f.locals) for f in st.frames]
+        saved_holder = dict(st.holder)
         try:
             for (place, rv) in stmts:
                 val = self.rvalue(st, depth, rv)
@@ -409,6 +449,7 @@ class Executor(object):
             for f, loc in zip(st.frames, saved):
                 f.locals = loc
             del st.frames[len(saved):]
+            st.holder = saved_holder
             raise
 
     def terminator(self, st, depth, term):
@@ -514,6 +555,8 @@ class Executor(object):
     def _get(self, st, fdepth, local, path, cbase):
         if cbase is not None:
             v = cbase
+        elif fdepth == -1:
+            v = st.holder[local]
         else:
             try:
                 v = st.frames[fdepth].locals[local]
@@ -548,11 +591,11 @@ class Executor(object):
         fd, local, path, cbase = self.resolve(st, depth, place)
         if cbase is not None:
             raise Unsupported("write through reference to constant")
-        fr = st.frames[fd]
+        store = st.holder if fd == -1 else st.frames[fd].locals
         if not path:
-            fr.locals[local] = val
+            store[local] = val
             return
-        fr.locals[local] = self._update(fr.locals.get(local), path, val)
+        store[local] = self._update(store.get(local), path, val)
 
     def _update(self, cur, path, val):
         if not path:
